@@ -99,6 +99,99 @@ def replay_cases(rep: C.Report, cases: t.List[t.Dict[str, t.Any]], rnd: random.R
         rep.sample({"content": cs["content"], "value": want, "canonical": cs["canon"]}, limit=3)
 
 
+PRIMS = [(0, 4, b""), (0, 4, b"\x01\x02"), (2, 0, b"\xff"), (2, 31, b"\x07"), (0, 2, b"\x00")]
+TAGS = [(0, 16), (0, 17), (1, 3), (2, 0), (3, 1000)]
+
+
+def replay_rw(rep: C.Report, cases: t.List[t.Dict[str, t.Any]], rnd: random.Random) -> None:
+    """spec -> code: every writer history of Asn1Rw.tla on a real ASN1Writer, then the octets walked back by ASN1Reader."""
+    from sansldap.asn1 import ASN1Reader, ASN1Tag, ASN1Writer, TagClass
+
+    def walk(r: t.Any, forest: t.List[t.Any], what: str) -> t.Optional[str]:
+        for n in forest:
+            h = r.peek_header()
+            tag = ASN1Tag(TagClass(n["cls"]), n["num"], bool(n["cons"]))
+            if (int(h.tag.tag_class), int(h.tag.tag_number), bool(h.tag.is_constructed)) != (n["cls"], n["num"], bool(n["cons"])):
+                return f"peek_header gives {h.tag}, expected {tag}"
+            mode = rnd.randrange(4)
+            if mode == 0:
+                before = len(bytes(r._view)) if hasattr(r, "_view") else None
+                r.skip_value(h)
+                continue
+            if n["cons"]:
+                rd = r.read_set if (n["cls"], n["num"]) == (0, 17) or rnd.random() < 0.3 else r.read_sequence
+                inner = rd(header=h) if mode == 1 else rd(tag=tag)
+                err = walk(inner, n["kids"], what)
+                if err:
+                    return err
+                if inner:
+                    return "a child reader has octets left after its elements were read"
+            else:
+                if (n["cls"], n["num"]) == (0, 2) and mode == 1:
+                    v = r.read_integer()
+                    if v != int.from_bytes(bytes(n["val"]), "big", signed=True):
+                        return f"read_integer gives {v}"
+                else:
+                    v = r.read_octet_string(header=h) if mode == 2 else r.read_octet_string(tag=tag)
+                    if v != bytes(n["val"]):
+                        return f"read_octet_string gives {v!r}, expected {bytes(n['val'])!r}"
+        return None
+
+    for cs in cases:
+        rep.case(("rw", str(cs["ops"])))
+        rep.traces += 1
+        root = ASN1Writer()
+        stack = [root]
+        try:
+            for op in cs["ops"]:
+                if op["op"] == "prim":
+                    c, n, v = PRIMS[op["j"] - 1]
+                    if (c, n) == (0, 2):
+                        stack[-1].write_integer(int.from_bytes(v, "big", signed=True))
+                    else:
+                        stack[-1].write_octet_string(v, tag=ASN1Tag(TagClass(c), n, False))
+                elif op["op"] == "push":
+                    c, n = TAGS[op["j"] - 1]
+                    tag = ASN1Tag(TagClass(c), n, True)
+                    if (c, n) == (0, 16):
+                        w = stack[-1].push_sequence() if rnd.random() < 0.5 else stack[-1].push_sequence(tag)
+                    elif (c, n) == (0, 17):
+                        w = stack[-1].push_set() if rnd.random() < 0.5 else stack[-1].push_set_of(tag)
+                    else:
+                        w = stack[-1].push_sequence_of(tag) if rnd.random() < 0.5 else stack[-1].push_set(tag)
+                    w.__enter__()
+                    stack.append(w)
+                else:
+                    stack.pop().__exit__(None, None, None)
+            out = bytes(root.get_data())
+        except Exception as e:  # noqa: BLE001
+            rep.violation("NestedWrite/raised", f"writer history {cs['ops']} raised {type(e).__name__}: {e}", cs)
+            continue
+        if out != bytes(cs["root"]):
+            rep.violation("NestedWrite/octets", f"writer history {[o['op'] for o in cs['ops']]}: get_data() is {out.hex()}, the specification gives {bytes(cs['root']).hex()}", cs)
+            continue
+        if len(stack) > 1:
+            try:
+                stack[-1].get_data()
+                rep.violation("NestedWrite/child-get-data", "get_data() on a child writer did not raise", cs)
+            except TypeError:
+                pass
+        trail = bytes(rnd.randrange(256) for _ in range(rnd.randrange(0, 3)))
+        try:
+            r = ASN1Reader(out + trail)
+            err = walk(r, cs["forest"], "root")
+            rest = r.get_remaining_data()
+        except Exception as e:  # noqa: BLE001
+            rep.violation("NestedRead/raised", f"reading back {out.hex()} raised {type(e).__name__}: {e}", cs)
+            continue
+        if err:
+            rep.violation("NestedRead/value", f"reading back {out.hex()}: {err}", cs)
+        elif rest != trail:
+            rep.violation("NoOverRead/nested", f"after reading all values of {out.hex()} the reader has {rest.hex()} left, expected {trail.hex()}", cs)
+    rep.add_part("spec->code replay of Asn1Rw.tla (writer histories, reader walk with peek/skip/read by tag or header)", cases=len(cases))
+
+
+
 def _cls(content: bytes) -> str:
     if not content:
         return "empty"
@@ -321,7 +414,11 @@ def run(tier: str, seed: int) -> int:
                 dict(module="BerGen", cfg="BerGen_edge6.cfg", wd=wd, workers=1, tag="edge6")]
         if tier == "thorough":
             jobs.append(dict(module="BerGen", cfg="BerGen_edge7_mc.cfg", wd=wd, workers=8, tag="edge7"))
+        jobs.append(dict(module="Asn1Rw", cfg="Asn1Rw_q.cfg" if tier == "quick" else "Asn1Rw_t.cfg", wd=wd, workers=1, tag="rw", timeout=1800))
         res = C.run_tlc_parallel(jobs)
+        rw = res.pop()
+        rep.add_tlc("Asn1Rw.tla: writer/reader object model (RootIsForest, ReaderAccounts, ChildInvisible) + case emission", rw, exhaustive=True)
+        replay_rw(rep, rw.json_cases(), rnd)
         rep.add_tlc("BerGen full alphabet, length<=2 (oracle theorems + case emission)", res[0], exhaustive=True)
         rep.add_tlc("BerGen {00,01,7F,80,FF}, length<=6 (oracle theorems + case emission)", res[1], exhaustive=True)
         if tier == "thorough":
